@@ -41,6 +41,7 @@ pub fn get_duration<T: AsRef<Path>>(
 ) -> Option<Duration> {
     let path_ref = path.as_ref();
     let extension = path_ref.extension()?.to_str()?;
+    crate::util::open_for_reading(path_ref).ok()?;
 
     EXTRACTORS
         .iter()
